@@ -8,9 +8,18 @@ use std::io::{BufRead, Write};
 
 fn enc_line(ty: &Ty, v: &Sx) -> (String, Option<Vec<u8>>) {
     let d = build(ty, v);
+    // both convenience entry points (Vec<u8> and BytesMut sinks) must agree
+    let via_bytes = desert::serialize_to_bytes(&d);
     match desert::serialize_to_byte_vec(&d) {
-        Ok(bytes) => (format!("ok {} {}", hex(&bytes), print_val(&d, false)), Some(bytes)),
-        Err(e) => (format!("err {}", err_class(&e)), None),
+        Ok(bytes) => match via_bytes {
+            Ok(b) if b[..] == bytes[..] => (format!("ok {} {}", hex(&bytes), print_val(&d, false)), Some(bytes)),
+            Ok(b) => (format!("entry-points-differ vec={} bytes={}", hex(&bytes), hex(&b)), None),
+            Err(e) => (format!("entry-points-differ vec=ok bytes=err {}", err_class(&e)), None),
+        },
+        Err(e) => match via_bytes {
+            Err(e2) if err_class(&e2) == err_class(&e) => (format!("err {}", err_class(&e)), None),
+            _ => (format!("entry-points-differ vec=err {}", err_class(&e)), None),
+        },
     }
 }
 
